@@ -79,6 +79,7 @@ def main():
     for i in range(0, len(cases), B):
         d.process(cases[i:i + B])
     found = d.finish()
+    long_phase(run, bins)
     proof_failure_violation(run, found or run.violations)
     run.cov["rule"] = ("weighted digraphs reached through build/removal histories (add_node, add_root_node, add_edge = weight 0, add_edge_with_weight from small weight sets "
                        "that force ties, remove_edge, remove_node, clear), cycles and self loops included; EVERY ordered pair (s,t) of the index window is queried (incl. s=t, "
@@ -94,6 +95,94 @@ def main():
                assumptions=["path sums may exceed u64 (weights up to 2^64-1 are generated): the implementation accumulates the cost in u128 since the fix of D12; the model computes in N", "the reference distances (Bellman-Ford, |nodes| rounds) are closed under relaxation: theorem C15_reference_distances_are_closed (Graph/BellmanFord.v); the checker is complete as well as sound"])
 
 
+def long_phase(run, bins):
+    """LONG paths (hundreds of edges), beyond what the extracted checker can label in reasonable time: graphs whose shortest paths are
+    known by construction - a chain of light edges beside heavier short-cuts, two parallel chains of different weight - and selected
+    queries. Oracle (Python, on the implementation's answer): the answer is a path along inserted edges from s to t and its total
+    weight is the optimum known by construction."""
+    rng = run.rng
+    n_ok = 0; lines = []; specs = []
+    for n in ([258, 300, 513, 1030] if run.thorough else [258, 520]):
+        w_chain = rng.choice([0, 0, 1])
+        ops = [(0, 100 + i, 0, 0) for i in range(n)]
+        edges = {}
+        for i in range(n - 1):
+            edges[(i, i + 1)] = w_chain
+        # heavier short-cuts: from 0 to the end, and from a middle node to the end
+        sc1 = w_chain * (n - 1) + rng.choice([1, 2, 7]); mid = rng.randrange(1, n - 2)
+        sc2 = w_chain * (n - 1 - mid) + rng.choice([1, 3])
+        edges[(0, n - 1)] = sc1; edges[(mid, n - 1)] = sc2
+        items = list(edges.items()); rng.shuffle(items)
+        for (a, b2), w in items:
+            ops.append((4, a, b2, w) if w > 0 else (3, a, b2, 0))
+        queries = [(0, n - 1), (mid, n - 1), (1, n - 1), (0, mid), (n - 1, 0)]
+        opt = {(0, n - 1): w_chain * (n - 1), (mid, n - 1): w_chain * (n - 1 - mid), (1, n - 1): w_chain * (n - 2), (0, mid): w_chain * mid, (n - 1, 0): None}
+        lines.append(f"spathq_{rng.choice([0, 8])} {len(ops)} " + fmt([x for o in ops for x in o]) + " " + fmt([x for q in queries for x in q]))
+        specs.append((n, edges, queries, opt, len(ops)))
+    rc, outs, err = run_lines(bins["release"], lines, line_timeout=120)
+    for k, (ln, (n, edges, queries, opt, nops)) in enumerate(zip(lines, specs)):
+        run.cov["evaluations"] += 1
+        o = outs[k] if k < len(outs) else "<no answer>"
+        why = None
+        try:
+            t = [int(x) for x in o.split()]
+            p = nops
+            for q in queries:
+                if t[p] < 0: ans = None; p += 1
+                else: ans = t[p + 1:p + 1 + t[p]]; p += 1 + t[p]
+                want = opt[q]
+                if want is None:
+                    if ans is not None: why = f"query {q}: a path {ans[:6]}.. was returned although the target is unreachable"; break
+                    continue
+                if ans is None: why = f"query {q}: nothing returned although a path of weight {want} exists"; break
+                if ans[0] != q[0] or ans[-1] != q[1] or any((a, b2) not in edges for a, b2 in zip(ans, ans[1:])):
+                    why = f"query {q}: {ans[:6]}..{ans[-3:]} is not a path along inserted edges from {q[0]} to {q[1]}"; break
+                wt = sum(edges[(a, b2)] for a, b2 in zip(ans, ans[1:]))
+                if wt != want: why = f"query {q}: returned a path of {len(ans) - 1} edges and total weight {wt}; the minimum (the chain of {n - 1 if q == (0, n - 1) else '..'} light edges) is {want}"; break
+        except (ValueError, IndexError):
+            why = f"unparsable answer {o[:80]!r}"
+        if why is None:
+            n_ok += 1; continue
+        run.violation({"kind": "property-oracle-failed-on-implementation", "why": why, "harness_line": ln, "long": True, "nodes": n,
+                       "rerun": "cd /verif && python3 bin/check.py C15 --replay <this file>"})
+        break
+    run.cov["long_path_graphs"] = {"graphs": len(lines), "agree": n_ok, "nodes": [sp[0] for sp in specs]}
+
+
 def replay(path):
+    import json as _j
+    dj = _j.load(open(path))
+    if dj.get("long"):
+        run = Run("C15"); bins = builds(run)
+        # re-run the line and re-judge: the optimum is recomputed from the line (Dijkstra in Python on the inserted edges)
+        toks = [int(x) for x in dj["harness_line"].split()[1:]]
+        nops = toks[0]; ops = [toks[1 + 4 * i:5 + 4 * i] for i in range(nops)]; qs = toks[1 + 4 * nops:]
+        edges = {}
+        for o in ops:
+            if o[0] == 4: edges.setdefault((o[1], o[2]), o[3])
+            elif o[0] == 3: edges.setdefault((o[1], o[2]), 0)
+        import heapq
+        def dijkstra(s0, t0):
+            dist = {s0: 0}; pq = [(0, s0)]
+            adj = {}
+            for (a, b2), w in edges.items(): adj.setdefault(a, []).append((b2, w))
+            while pq:
+                dd, u = heapq.heappop(pq)
+                if dd > dist.get(u, 1 << 200): continue
+                if u == t0: return dd
+                for v, w in adj.get(u, []):
+                    if dd + w < dist.get(v, 1 << 200): dist[v] = dd + w; heapq.heappush(pq, (dd + w, v))
+            return None
+        rc, outs, err = run_lines(bins["release"], [dj["harness_line"]], line_timeout=120)
+        t = [int(x) for x in outs[0].split()]; p = nops; bad = False
+        for i in range(0, len(qs), 2):
+            q = (qs[i], qs[i + 1])
+            if t[p] < 0: ans = None; p += 1
+            else: ans = t[p + 1:p + 1 + t[p]]; p += 1 + t[p]
+            want = dijkstra(*q)
+            got = None if ans is None else sum(edges.get((a, b2), 1 << 100) for a, b2 in zip(ans, ans[1:]))
+            print("query", q, "minimum", want, "returned weight", got)
+            if want != got: bad = True
+        print("REPRODUCED" if bad else "not reproduced"); return 1 if bad else 0
     run = Run("C15"); ensure_driver(); bins = builds(run)
     return generic_replay(mk_diff(run, bins), path)
